@@ -151,7 +151,7 @@ impl Prop for C13 {
         "C13"
     }
     fn cases(&self, tier: Tier) -> u64 {
-        tier.pick(20_000, 200_000)
+        tier.pick(100_000, 400_000)
     }
     fn strategy(&self, _tier: Tier) -> BoxedStrategy<Case> {
         let year = prop_oneof![
@@ -224,6 +224,25 @@ impl Prop for C13 {
                             prev2 = prev1;
                             prev1 = cur;
                         }
+                        // calendar seams: the triples centred on Dec 31, Jan 1, Feb 28, (Feb 29), Mar 1
+                        for (m0, d0, n) in [(12u32, 29u32, 5i64), (2, 26, 6)] {
+                            let first = if m0 == 12 { gen::ymd(y - 1, m0, d0) } else { gen::ymd(y, m0, d0) };
+                            if first < gen::date_lo() {
+                                continue;
+                            }
+                            let mut a = day_values(&site, p, first);
+                            let mut b = day_values(&site, p, first + chrono::Duration::days(1));
+                            for j in 2..n {
+                                let dcur = first + chrono::Duration::days(j);
+                                let cur = day_values(&site, p, dcur);
+                                check_triple(lat, dcur - chrono::Duration::days(1), &a, &b, &cur, st).map_err(|f| {
+                                    (Case { site, method: if si % 2 == 0 { 5 } else { 1 }, start: dcur - chrono::Duration::days(2), len: 3 }, f)
+                                })?;
+                                st.nontrivial_enum(1);
+                                a = b;
+                                b = cur;
+                            }
+                        }
                     }
                 }
             }
@@ -252,7 +271,7 @@ impl Prop for C13 {
         Ok(())
     }
     fn rule(&self) -> String {
-        "histories: generated (site |lat|<=45, GMT within 3 h, angle method, start date anchored before Mar 10 / Dec 20 / Feb 15 of generated years incl. century and leap years or uniform, length 3..30); plus an enumerated sweep (quick: every triple centred on Mar 16-25 of every year 1600-2399 at 8 of 24 fixed sites per year; thorough: every consecutive triple of 1600-2399 at 24 fixed sites). evaluations counts triples. Non-trivial = a generated history containing a hot triple (RA-wrap day, month/year end, Feb 28/29) counted by case hash, plus every swept triple (distinct by construction)".into()
+        "histories: generated (site |lat|<=45, GMT within 3 h, angle method, start date anchored before Mar 10 / Dec 20 / Feb 15 of generated years incl. century and leap years or uniform, length 3..30); plus an enumerated sweep (quick: every triple centred on Mar 16-25, on Dec 30 - Jan 1 and on Feb 27 - Mar 1 of every year 1600-2399 at 8 of 24 fixed sites per year; thorough: every consecutive triple of 1600-2399 at 24 fixed sites). evaluations counts triples. Non-trivial = a generated history containing a hot triple (RA-wrap day, month/year end, Feb 28/29) counted by case hash, plus every swept triple (distinct by construction)".into()
     }
     fn assumptions(&self) -> Vec<String> {
         vec![
